@@ -495,6 +495,9 @@ pub fn rollback(home: &AgentpackHome, snapshot_id: &str) -> anyhow::Result<Deplo
 /// Remove a file during rollback. A file that vanished in the meantime is fine; any other error
 /// (permissions, I/O) must fail the rollback instead of being reported as a successful delete.
 fn remove_file_if_present(path: &Path) -> anyhow::Result<()> {
+    #[cfg(agentpack_verif)]
+    crate::verif_hooks::point("remove", path)
+        .with_context(|| format!("remove {}", path.display()))?;
     match std::fs::remove_file(path) {
         Ok(()) => Ok(()),
         Err(err) if err.kind() == std::io::ErrorKind::NotFound => Ok(()),
